@@ -58,7 +58,9 @@ func main() {
 			}
 		}()
 		core.CurProg = p
-		rs(&rules.Ctx{P: p, R: rep, Tier: *tier})
+		ctx := &rules.Ctx{P: p, R: rep, Tier: *tier}
+		rs(ctx)
+		rules.NoSharedState(ctx, *prop)
 	}()
 	var extra map[string]any
 	if *extraFile != "" {
